@@ -817,7 +817,9 @@ def r11(ctx):
         if was == "restricted" and now == "pub":
             bad += 1
             yield VIOL("C01-R11", "visibility/fn/" + p_, "`%s` is crate-private in the reviewed tree and public now: callers can run this step on values of their own making / out of the reviewed order" % p_, where=loc(b["span"]))
-        elif was is None and now == "pub" and re.match(r"^&('\w+ )?mut ", (b.get("locals") or [{}])[0].get("ty", "")) and re.search(r"(auth|canonical|signing_key|signature)::", " ".join(l_.get("ty", "") for l_ in (b.get("locals") or [])[1:1 + b.get("arg_count", 0)])):
+        elif was is None and now == "pub" and re.match(r"^&('\w+ )?mut ", (b.get("locals") or [{}])[0].get("ty", "")) and re.search(r"(auth|canonical|signing_key|signature)::", " ".join(l_.get("ty", "") for l_ in (b.get("locals") or [])[1:1 + b.get("arg_count", 0)])) \
+                and re.sub(r"^&('\w+ )?mut ", "", (b.get("locals") or [{}])[0].get("ty", "")) != re.sub(r"^&('\w+ )?(mut )?", "", ((b.get("locals") or [{}, {}])[1:2] or [{}])[0].get("ty", "")):
+            # (a chaining method `fn f(&mut self) -> &mut Self` hands out nothing the caller did not have)
             bad += 1
             yield VIOL("C01-R11", "visibility/mut-access/" + p_, "new public `%s` hands out mutable access to a reviewed type" % p_, where=loc(b["span"]))
     for a in ctx.facts.j["adts"]:
